@@ -242,6 +242,21 @@ func FaultCommit(res *sup.CaseResult, opt Options, init InitTree, h []Step) {
 				res.Violate("commit-fault-not-reported", fmt.Sprintf("the remote failed during Commit (%s) but Commit returned nil", fired), wit)
 			}
 		}
+		// every other position: the cache is used once more before the retry (a new top-level file;
+		// the expected tree gets it too) – a failed Commit must leave the cache usable
+		if k%2 == 0 {
+			// (issued on the cache directly: the remote-untouched-before-Commit comparison of Run.Do
+			// does not apply after a Commit that failed half way)
+			op := mfs.Op{Kind: mfs.OpWriteFile, P1: "zzafter", Data: []byte(fmt.Sprintf("written after the failed commit %d", k))}
+			werr := run.Cache.WriteFile(op.P1, append([]byte{}, op.Data...), 0644)
+			if werr != nil {
+				res.Violate("commit-after-fault-fails", fmt.Sprintf("after the injected fault %s the cache refuses a WriteFile of a new top-level file: %v", fired, werr), wit)
+				run.Cleanup()
+				return
+			}
+			run.Model.Step(op, mfs.Res{})
+			res.AddObs("writes_between_a_failed_commit_and_the_retry", 1)
+		}
 		// a later Commit without faults must succeed and bring the remote to the expected tree
 		if err2 := run.Cache.Commit(); err2 != nil {
 			res.Violate("commit-after-fault-fails", fmt.Sprintf("after the injected fault %s a later Commit still fails: %v", fired, err2), wit)
